@@ -248,3 +248,8 @@ Example json_history_latest :
   get_json "samples_summary" (run_json [("samples_summary", 1); ("samples_info", 2); ("samples_summary", 3); ("samples_info", 4)]) = Some 3
   /\ json_count "samples_summary" (run_json [("samples_summary", 1); ("samples_info", 2); ("samples_summary", 3)]) = 1.
 Proof. vm_compute. split; reflexivity. Qed.
+
+Example reserved_reload_ok_by_position :
+  res_bind (csv_roundtrip_pos nid nid Nat.add true [] (sorted_walk t_reserved) (from_lists true (sorted_walk t_reserved) rows2))
+           (observe [] (sorted_walk t_reserved)) = Ok (expected rows2).
+Proof. vm_compute. reflexivity. Qed.
